@@ -172,8 +172,8 @@ pub fn main(args: &[String]) -> i32 {
             "got": got, "gotp": if got.starts_with('!') { json!([]) } else { path_segs(&got) },
             "unloadable": unloadable, "conv": 0, "target": "", "newreq": "", "newreqp": [], "got2": "", "got2p": [],
         });
-        // conversions are claimed between equal folder names only (the luau mode is fixed to `init`)
-        if !got.starts_with('!') && !unloadable && mfn == "init" && c["convert"].as_bool().unwrap_or(true) {
+        // the folder name is a parameter of the path mode only (the luau mode is fixed to `init`)
+        if !got.starts_with('!') && !unloadable && (mfn == "init" || mode == "path") && c["convert"].as_bool().unwrap_or(true) {
             let tgt = if mode == "path" { "luau" } else { "path" };
             obs["conv"] = json!(1);
             obs["target"] = json!(tgt);
